@@ -6,17 +6,15 @@
 (* giscanner/utils.py: extract_libtool_shlib, _extract_dlname_field.       *)
 (*                                                                         *)
 (* Text is carried EXACTLY: a character is a one-character string, a name  *)
-(* a sequence of characters.  A listing is a sequence of lines, a line a   *)
-(* sequence of words, a word a record                                      *)
-(*    [dir, pfx, stem, sep, rest, colon,  dc, bc]                          *)
-(* dir  = directory part ("" or ending in "/"), possibly with components   *)
-(*        that look like libraries;  pfx = "lib" or something else;        *)
-(* stem = the library stem;  sep = the (0 or 1) character following it;    *)
-(* rest = versions/extension;  colon = trailing ':'.                       *)
-(* dc = dir, bc = pfx \o stem \o sep \o rest \o colon is the base name.    *)
-(* The decomposition is only the way cases are enumerated and classified:  *)
-(* both layers below reason on dc/bc alone, so no renderer convention is   *)
-(* trusted about where a stem ends.                                        *)
+(* (request, file name, reported entry, message) the sequence of its       *)
+(* characters.  A listing is a sequence of lines, a line a sequence of     *)
+(* words, a word a record [dc, bc]: dc = directory part ("" or ending in   *)
+(* "/", possibly with components that look like libraries), bc = base name.*)
+(* Cases are ENUMERATED from the structured view of a word                 *)
+(*    [dir kind, prefix, stem, separator after the stem, rest, colon]      *)
+(* (ShlibsMC!W, harness mkword) with bc = pfx \o stem \o sep \o rest \o colon; *)
+(* both layers below reason on dc/bc alone, so no convention about where a *)
+(* stem ends is trusted.                                                   *)
 (*                                                                         *)
 (*   property layer        Resolve / Clauses : the statement of C19        *)
 (*   implementation layer  RegexMatch, ScanWord, ScanLine, Finish, Run and *)
@@ -39,7 +37,6 @@ IdChars == Lower \cup Upper \cup Digit \cup {"_", "-"}      \* "a letter, digit,
 White == {" ", "\t", "\n", "\r", "\f"}
 LIB == <<"l","i","b">>
 
-Str(cs) == FoldLeft(LAMBDA a, b : a \o b, "", cs)          \* characters -> the string they spell
 Chars(cs) == {cs[i] : i \in 1..Len(cs)}
 Suffix(s, k) == SubSeq(s, k, Len(s))
 HasPrefix(s, p) == Len(p) <= Len(s) /\ SubSeq(s, 1, Len(p)) = p
@@ -51,13 +48,11 @@ Basename(cs) == LET sl == {i \in 1..Len(cs) : cs[i] = "/"}
 FC(w) == w.dc \o w.bc                                       \* the word as printed
 EndsWithColon(line) == Len(line) > 0 /\ LET f == FC(line[Len(line)]) IN Len(f) > 0 /\ f[Len(f)] = ":"
 
-WFWord(w) == /\ "/" \notin Chars(w.bc)
+WFWord(w) == /\ \A i \in 1..Len(w.bc) : w.bc[i] # "/" /\ w.bc[i] \notin White
+             /\ \A i \in 1..Len(w.dc) : w.dc[i] \notin White
              /\ w.dc = <<>> \/ w.dc[Len(w.dc)] = "/"
-             /\ FC(w) # <<>>
-             /\ Chars(FC(w)) \cap White = {}
-             /\ w.dc = w.dir
-             /\ w.bc = w.pfx \o w.stem \o w.sep \o w.rest \o (IF w.colon THEN <<":">> ELSE <<>>)
-WFReq(r) == r # <<>> /\ Chars(r) \cap (White \cup {"/"}) = {}
+             /\ Len(w.dc) + Len(w.bc) > 0
+WFReq(r) == r # <<>> /\ \A i \in 1..Len(r) : r[i] # "/" /\ r[i] \notin White
 WFCase(c) == /\ \A i \in 1..Len(c.reqs) : WFReq(c.reqs[i])
              /\ \A i \in 1..Len(c.listing) : \A j \in 1..Len(c.listing[i]) : WFWord(c.listing[i][j])
 
@@ -80,17 +75,18 @@ F(c, r) == CHOOSE p \in M(c, r) : \A q \in M(c, r) : q = p \/ Before(p, q)
 Missing(c) == {r \in ReqSet(c) : M(c, r) = {}}
 
 \* the expected resolution: per request the first matching word, by base name; or failure naming the missing ones
+\* (a name is the sequence of its characters)
 Resolve(c) == IF Missing(c) # {}
               THEN [kind |-> "exit", files |-> {}, missing |-> Missing(c)]
-              ELSE [kind |-> "ok", files |-> {Str(At(c, F(c, r)).bc) : r \in ReqSet(c)}, missing |-> {}]
+              ELSE [kind |-> "ok", files |-> {At(c, F(c, r)).bc : r \in ReqSet(c)}, missing |-> {}]
 
 \* the quantifier's precondition: no single listed file could satisfy two requests
 Unambiguous(c) == \A p \in Live(c) : \A i, j \in 1..Len(c.reqs) :
                      i < j => ~(MatchesBase(At(c, p).bc, c.reqs[i]) /\ MatchesBase(At(c, p).bc, c.reqs[j]))
 InDomain(c) == WFCase(c) /\ Unambiguous(c)
 
-\* an outcome is [kind |-> "ok" | "exit" | "other", out |-> sequence of reported names (strings), msgc |-> message characters]
-Forms(w) == {Str(w.bc), Str(FC(w))}                 \* a reported entry denotes a word by its base name or in full
+\* an outcome is [kind |-> "ok" | "exit" | "other", out |-> sequence of reported names, msgc |-> message characters]
+Forms(w) == {w.bc, FC(w)}                 \* a reported entry denotes a word by its base name or in full
 
 \* words that must NOT be taken for request r although they resemble it
 NearMiss(w, r) ==
@@ -98,55 +94,58 @@ NearMiss(w, r) ==
   /\ \/ HasPrefix(w.bc, LIB \o r)                                           \* libpangoft2, libfoo-bar, libfoo_x, bare libfoo
      \/ \E k \in 2..Len(w.bc) : MatchesBase(Suffix(w.bc, k), r)             \* liblibfoo.so, xlibfoo.so
      \/ \E a \in 1..Len(w.dc) : (a = 1 \/ w.dc[a - 1] = "/") /\ HasPrefix(Suffix(w.dc, a), LIB \o r)   \* .../libpango-1.0/...
-HeaderTempts(c) == \E p \in Hdr(c) : \E r \in ReqSet(c) : MatchesBase(At(c, p).bc, r)
-SiblingTempts(c) == \E p \in Live(c) : \E r \in ReqSet(c) : NearMiss(At(c, p), r)
 
-\* The clauses of the statement.  (LET values are computed once per judgement: M, F, Forms are the
-\* definitions above, tabulated.)
-Clauses(c, o) ==
-  LET dom == InDomain(c)
+\* The clauses of the statement, and when each of them speaks (vacuity accounting).
+\* (LET values are computed once per judgement; m, first, missing tabulate M, F, Missing above.)
+Judge(c, o) ==
+  LET pos == Pos(c)
+      hdr == {p \in pos : EndsWithColon(c.listing[p[1]])}
+      live == pos \ hdr
       reqs == ReqSet(c)
-      m == [r \in reqs |-> M(c, r)]
+      nreq == Len(c.reqs)
+      m == [r \in reqs |-> {p \in live : MatchesBase(At(c, p).bc, r)}]
       missing == {r \in reqs : m[r] = {}}
-      first == [r \in reqs \ missing |-> F(c, r)]
-      forms == [p \in Pos(c) |-> Forms(At(c, p))]
+      first == [r \in reqs \ missing |-> CHOOSE p \in m[r] : \A q \in m[r] : q = p \/ Before(p, q)]
+      dom == /\ WFCase(c)
+             /\ \A p \in live : \A i, j \in 1..nreq : (i < j /\ p \in m[c.reqs[i]]) => p \notin m[c.reqs[j]]
       outs == 1..Len(o.out)
+      hdrT == \E p \in hdr : \E r \in reqs : MatchesBase(At(c, p).bc, r)
+      sibT == \E p \in live : \E r \in reqs : NearMiss(At(c, p), r)
       Loud == o.kind = "exit" /\ \A r \in missing : Occurs(o.msgc, r)
-      OnlyRightFiles == \A k \in outs : \E r \in reqs : \E p \in m[r] : o.out[k] \in forms[p]
+      OnlyRightFiles == \A k \in outs : \E r \in reqs : \E p \in m[r] : o.out[k] \in Forms(At(c, p))
       Faithful == (o.kind = "ok" => OnlyRightFiles) /\ (missing # {} => Loud)
-  IN [
+  IN [cl |-> [
   \* every request has a listed file obeying the rule => success, every request represented, nothing foreign
   RightFile    |-> (dom /\ missing = {}) =>
                      /\ o.kind = "ok"
-                     /\ \A r \in reqs : \E k \in outs : \E p \in m[r] : o.out[k] \in forms[p]
+                     /\ \A r \in reqs : \E k \in outs : \E p \in m[r] : o.out[k] \in Forms(At(c, p))
                      /\ OnlyRightFiles,
   \* ... and it is the FIRST such file in line/word order, one per request
   FirstListed  |-> (dom /\ missing = {} /\ o.kind = "ok") =>
                      /\ Len(o.out) = Cardinality(reqs)
-                     /\ \A k \in outs : \E r \in reqs : o.out[k] \in forms[first[r]],
+                     /\ \A k \in outs : \E r \in reqs : o.out[k] \in Forms(At(c, first[r])),
   \* reported by base name
   ByBaseName   |-> (dom /\ o.kind = "ok") =>
-                     \A k \in outs : (\E p \in Pos(c) : o.out[k] \in forms[p])
-                                        => (\E p \in Pos(c) : o.out[k] = Str(At(c, p).bc)),
+                     \A k \in outs : (\E p \in pos : o.out[k] \in Forms(At(c, p)))
+                                        => (\E p \in pos : o.out[k] = At(c, p).bc),
   \* header lines naming the binary are ignored even when the binary looks like a requested library
-  HeaderIgnored |-> (dom /\ HeaderTempts(c)) => Faithful,
+  HeaderIgnored |-> (dom /\ hdrT) => Faithful,
   \* pango never resolves to pangoft2 / pango-1.0's directory, foo never to libfoo-bar / liblibfoo
-  NeverPrefixSibling |-> (dom /\ SiblingTempts(c)) => Faithful,
+  NeverPrefixSibling |-> (dom /\ sibT) => Faithful,
   \* any unresolved request => the scan stops with an error naming it
-  FailLoudly   |-> (dom /\ missing # {}) => Loud ]
+  FailLoudly   |-> (dom /\ missing # {}) => Loud ],
+  sp |-> [
+  RightFile    |-> dom /\ missing = {} /\ reqs # {},
+  FirstListed  |-> dom /\ missing = {} /\ \E r \in reqs : \E p, q \in m[r] : At(c, p).bc # At(c, q).bc,
+  ByBaseName   |-> dom /\ missing = {} /\ \E r \in reqs : At(c, first[r]).dc # <<>>,
+  HeaderIgnored |-> dom /\ hdrT,
+  NeverPrefixSibling |-> dom /\ sibT,
+  FailLoudly   |-> dom /\ missing # {} ]]
 
 ClauseNames == {"RightFile", "FirstListed", "ByBaseName", "HeaderIgnored", "NeverPrefixSibling", "FailLoudly"}
+Clauses(c, o) == Judge(c, o).cl
 Failed(c, o) == LET cl == Clauses(c, o) IN {n \in ClauseNames : ~cl[n]}
 AllClauses(c, o) == Failed(c, o) = {}
-
-\* when does a clause speak (vacuity accounting)
-Speaks(c) == [
-  RightFile    |-> InDomain(c) /\ Missing(c) = {} /\ ReqSet(c) # {},
-  FirstListed  |-> InDomain(c) /\ Missing(c) = {} /\ \E r \in ReqSet(c) : \E p, q \in M(c, r) : At(c, p).bc # At(c, q).bc,
-  ByBaseName   |-> InDomain(c) /\ Missing(c) = {} /\ \E r \in ReqSet(c) : At(c, F(c, r)).dc # <<>>,
-  HeaderIgnored |-> InDomain(c) /\ HeaderTempts(c),
-  NeverPrefixSibling |-> InDomain(c) /\ SiblingTempts(c),
-  FailLoudly   |-> InDomain(c) /\ Missing(c) # {} ]
 
 -----------------------------------------------------------------------------
 (***************************************************************************)
@@ -196,7 +195,7 @@ Sanitize(v, fc) == IF v = "fullpath" THEN fc ELSE Basename(fc)
 \* if len(patterns) > 0: raise SystemExit("ERROR: ...: " + ", ".join(patterns.keys())) ; return shlibs
 Finish(v, s) == IF s.pats # <<>> /\ v # "silent"
                 THEN [kind |-> "exit", out |-> <<>>, msgc |-> ErrHead \o JoinComma(s.pats)]
-                ELSE [kind |-> "ok", out |-> [i \in 1..Len(s.shl) |-> Str(Sanitize(v, s.shl[i]))], msgc |-> <<>>]
+                ELSE [kind |-> "ok", out |-> [i \in 1..Len(s.shl) |-> Sanitize(v, s.shl[i])], msgc |-> <<>>]
 ListingOf(v, c) == IF v = "last" THEN Reverse([i \in 1..Len(c.listing) |-> Reverse(c.listing[i])]) ELSE c.listing
 Run(v, c) == IF Patterns(c) = <<>> THEN [kind |-> "ok", out |-> <<>>, msgc |-> <<>>]      \* if len(patterns) == 0: return []
              ELSE Finish(v, FoldLeft(LAMBDA a, ln : ScanLine(v, a, ln), [pats |-> Patterns(c), shl |-> <<>>], ListingOf(v, c)))
@@ -217,17 +216,18 @@ LaKind(a) == IF ~LaHas(a) THEN "dlname_absent"
 LaWF(a) == /\ \A i \in 1..Len(a.lines) : "\n" \notin Chars(a.lines[i])
            /\ LaHas(a) => "'" \notin Chars(LaVal(a))
            /\ a.name # <<>>
+           /\ Cardinality(LaLines(a)) <= 1                 \* libtool writes the field once
 
 LaClauses(a, o) == [
   \* libtool archives resolve to their dlname
-  LaDlname    |-> (LaWF(a) /\ LaKind(a) = "dlname_plain") => (o.kind = "ok" /\ o.out = <<Str(LaVal(a))>>),
+  LaDlname    |-> (LaWF(a) /\ LaKind(a) = "dlname_plain") => (o.kind = "ok" /\ o.out = <<LaVal(a)>>),
   \* old libtools wrote a path: the statement does not say which form is reported, but nothing else may be
   LaPath      |-> (LaWF(a) /\ LaKind(a) = "dlname_with_path" /\ o.kind = "ok" /\ o.out # <<>>) =>
-                     o.out \in {<<Str(LaVal(a))>>, <<Str(Basename(LaVal(a)))>>},
+                     o.out \in {<<LaVal(a)>>, <<Basename(LaVal(a))>>},
   \* a requested archive that does not resolve stops the scan with an error naming it
-  LaFailLoudly |-> LaWF(a) => /\ (o.kind = "ok" => o.out # <<>>)
-                               /\ (LaKind(a) \in {"dlname_absent", "dlname_empty", "dlname_is_directory"}) =>
-                                     (o.kind = "exit" /\ Occurs(o.msgc, a.name)) ]
+  LaFailLoudly |-> LaWF(a) => ( (o.kind = "ok" => o.out # <<>>)
+                               /\ ((LaKind(a) \in {"dlname_absent", "dlname_empty", "dlname_is_directory"})
+                                     => (o.kind = "exit" /\ Occurs(o.msgc, a.name))) ) ]
 LaClauseNames == {"LaDlname", "LaPath", "LaFailLoudly"}
 LaSpeaks(a) == [LaDlname |-> LaWF(a) /\ LaKind(a) = "dlname_plain",
                 LaPath |-> LaWF(a) /\ LaKind(a) = "dlname_with_path",
@@ -249,7 +249,7 @@ LaSearch(txt) ==
 \* _resolve_libtool: "if shlib: shlibs.append(shlib)" -- an unresolved archive is dropped without a word
 LaRun(a) == LET m == LaSearch(LaText(a))
                 sh == IF m.found THEN Basename(m.val) ELSE <<>>
-            IN [kind |-> "ok", out |-> IF sh = <<>> THEN <<>> ELSE <<Str(sh)>>, msgc |-> <<>>]
+            IN [kind |-> "ok", out |-> IF sh = <<>> THEN <<>> ELSE <<sh>>, msgc |-> <<>>]
 
 -----------------------------------------------------------------------------
 (***************************************************************************)
